@@ -1,6 +1,6 @@
 """C02 No task and no capacity is ever lost."""
 from asyncio_taskpool import SimpleTaskPool, TaskPool
-from engine.prog import Interp, act, drive, parts_product, select
+from engine.prog import Interp, act, drive, parts_product, refine, select
 from engine.spec import Family
 from engine.world import Excluded, World, task_outcome
 
@@ -109,7 +109,7 @@ def families(tier):
         parts += parts_product(cb=(3,), x1=(0, 1, 3), x2=(9,), x3=(2,))      # lock, then a task finishes
     else:
         pre = base + ["0 <= size <= 3", "0 <= x3 <= %d" % NOP, "a3 >= -1", "x4 == %d" % NOP, "a4 == 0"]
-        parts = parts_product(cb=(1, 3), x1=range(4), x2=range(NOP))
+        parts = refine(parts_product(cb=(1, 3), x1=range(4), x2=range(NOP)), ["x2 == 0", "x2 == 1"], "x3", range(NOP + 1))
     return [Family(name="loss", fn="tpl_loss", params=P, pre=pre, parts=parts,
                    twin_pre=["cb == 3", "x1 == 0", "x2 == 0", "x3 == 4", "x4 == %d" % NOP],
                    twin_args=[2, 3, 0, 0, 2, 4, 0, NOP, 0, 5])]
